@@ -8,6 +8,7 @@ import Mastverif.Model.Loads
 import Mastverif.Model.Loader
 import Mastverif.Model.Backends
 import Mastverif.Model.Flush
+import Mastverif.Model.Heap
 import Std.Data.HashMap
 /-!
 # Line-protocol driver for the executable models (compiled as `mastmodel`)
@@ -34,6 +35,7 @@ structure St where
   bytes : Std.HashMap String Bytes := {}
   cursors : Std.HashMap Nat Path := {}
   kv : Std.HashMap String KV.Store := {}
+  heap : Heap.Heap := []
 
 def hexDigit (n : Nat) : Char := if n < 10 then Char.ofNat (48 + n) else Char.ofNat (87 + n)
 def hex (b : Bytes) : String :=
@@ -354,6 +356,38 @@ partial def step (s : St) (line : String) : St × String :=
                      s!"ok {linkS} {r.size} {r.height} {r.bf} {evs}")
                   else (s, s!"err {evs}")
       | _, _, _ => (s, "bad-op")
+  | ["hreset"] => ({ s with heap := [] }, "ok")
+  | ["hacts", "-"] => (s, "ok")
+  | ["hacts", payload] =>
+      -- actions separated by ';', fields by '|': A|owner|shared|dirty|keys|vals|links,
+      -- W|actor|addr|shared|dirty|keys|vals|links (owner = actor), P|actor|addr|links
+      let nats (x : String) : List Nat := (x.splitOn ",").filterMap (·.toNat?)
+      let lnk (x : String) : Heap.HLink :=
+        if x.startsWith "p" then Heap.HLink.ptr ((x.drop 1).toString.toNat?.getD 0)
+        else if x.startsWith "r" then Heap.HLink.ref ((x.drop 1).toString.toNat?.getD 0)
+        else Heap.HLink.nil
+      let lnks (x : String) : List Heap.HLink := ((x.splitOn ",").filter (· ≠ "")).map lnk
+      let parse (a : String) : Option Heap.Act :=
+        match a.splitOn "|" with
+        | ["A", o, sh, d, ks, vs, ls] =>
+            some (.alloc { keys := nats ks, vals := nats vs, links := lnks ls, dirty := d == "1", shared := sh == "1", owner := o.toNat?.getD 0 })
+        | ["W", m, ad, sh, d, ks, vs, ls] =>
+            some (.write (m.toNat?.getD 0) (ad.toNat?.getD 0)
+              { keys := nats ks, vals := nats vs, links := lnks ls, dirty := d == "1", shared := sh == "1", owner := m.toNat?.getD 0 })
+        | ["P", m, ad, ls] => some (.publish (m.toNat?.getD 0) (ad.toNat?.getD 0) (lnks ls))
+        | _ => none
+      let acts := (payload.splitOn ";").filter (· ≠ "")
+      let rec go (h : Heap.Heap) (i : Nat) : List String → Heap.Heap × String
+        | [] => (h, "ok")
+        | a :: rest =>
+            match parse a with
+            | none => (h, s!"bad-act {i}")
+            | some act =>
+                match Heap.applyAct h act with
+                | none => (h, s!"guardfail {i} {a}")
+                | some h' => go h' (i + 1) rest
+      let (h', r) := go s.heap 0 acts
+      ({ s with heap := h' }, r)
   | ["cmp", a, b] =>
       match nat a, nat b with
       | some a, some b => (s, if a < b then "-1" else if a = b then "0" else "1")
